@@ -33,7 +33,7 @@ def surface_timeseries(
     time = np.linspace(0, nfft / sampling_frequency, nfft, endpoint=False)
 
     timeseries = nfft * np.fft.irfft(
-        create_fourier_amplitudes(component, spectrum, frequencies, seed)
+        create_fourier_amplitudes(component, spectrum, frequencies, seed), n=nfft
     )
 
     return time, timeseries
